@@ -49,21 +49,6 @@ func main() {
 		code := runProperty(*prop, "quick", *repo, *verif, "", true, false, v.Obligation.Key, nil)
 		os.Exit(code)
 	}
-	if *prop == "dbg-cty" {
-		p, _ := loadProg(*repo, "", false)
-		dbgCty(p)
-		return
-	}
-	if *prop == "dbg-scc" {
-		p, _ := loadProg(*repo, "", false)
-		dbgSCC(p)
-		return
-	}
-	if *prop == "dbg-e2" {
-		p, _ := loadProg(*repo, "", false)
-		dbgMapRanges(p)
-		return
-	}
 	if *prop == "" {
 		fmt.Println("usage: hclverif -property Cxx [-tier quick|thorough]")
 		os.Exit(2)
